@@ -76,6 +76,30 @@ Definition table_broken (kb1 wb1 wb2 : bool) : bool := xorb (negb (Bool.eqb kb1 
 Definition conflict_free (b1 b2 : bool) (t1 t2 : pyval) : bool :=
   if Bool.eqb b1 b2 then negb (pyval_eqb t1 t2) else pyval_eqb t1 t2.
 
+(** ---- the generator's ground truth and its `unambiguous` filter as a predicate on the molecule the annotation step
+    receives.  A mark: ligand and anchor (keys of that molecule), the side of the double bond's axis the ligand is on
+    ([m_up]), and whether the ligand was WRITTEN before its anchor ([m_wb]).  The token such a mark writes: *)
+Record mark := { m_lig : Z; m_anc : Z; m_up : bool; m_wb : bool }.
+Definition tok_of (u wb : bool) : pyval := if xorb u wb then tok_slash else tok_back.
+Definition sub_mark (ms : list mark) (x : sub) : option mark :=
+  find (fun m => Z.eqb (m_lig m) (s_lig x) && Z.eqb (m_anc m) (s_anc x)) ms.
+Definition sub_ok (ms : list mark) (x : sub) : bool :=
+  match sub_mark ms x with
+  | Some m => pyval_eqb (s_tok x) (tok_of (m_up m) (m_wb m))
+  | None => false
+  end.
+(** the per-atom token storage lost nothing: the annotation succeeds and every (tagged neighbour, anchor) it pairs up
+    is an intended mark and carries the token of ITS bond to that anchor *)
+Definition marks_ok (g : graph) (ms : list mark) : bool :=
+  match all_pairs g (ez_class_dict g) with
+  | Ok ps => forallb (fun p => sub_ok ms (fst p) && sub_ok ms (snd p)) ps
+  | Err _ => false
+  end.
+(** what the implementation will store for two marks, the first on the first-enumerated anchor *)
+Definition predicted_cis (mx my : mark) : bool :=
+  let same := Bool.eqb (m_up mx) (m_up my) in
+  if table_broken (m_lig mx <? m_anc mx) (m_wb mx) (m_wb my) then negb same else same.
+
 (** a renumbering applied structurally: same node order, same adjacency order *)
 Definition rename_adj (f : Z -> Z) (l : list (Z * attrs)) : list (Z * attrs) :=
   map (fun wa => (f (fst wa), snd wa)) l.
